@@ -283,6 +283,37 @@ theorem covol_of_norm_unit (p : ℤ) (O I : Lattice) (n : ℤ) (hO : O.denom ≠
     rcases Int.natAbs_eq n with h | h <;> rw [h, hn] <;> norm_num
   rw [hn2, one_mul, covol_eq_of_ratLat_eq O I hO hI hdetO e]
 
+/-- **the classical lemma, proved**: under the certificates, for primitive `x ∈ O` and `n = gcd(N(x), N) ≠ 0` prime to
+    `p`, the ideal `I = O·x + N·O` contains `g` with `N(g) = n·q`, `gcd(q, n) = 1`. -/
+theorem createFromPrimitive_exists_generator (p : ℤ) (x : Elem) (N : ℤ) (O : Lattice) (prev nx : ℤ)
+    (ho : isOrderCert p O = true) (hg : gramOk p O = true) (hx : x.denom ≠ 0)
+    (hxO : (latContains O x).1 = true) (hprim : isPrimitive O x = true)
+    (hn : nrm (val p x) = nx) (hn0 : Int.gcd nx N ≠ 0)
+    (hcop : ∀ ℓ : ℕ, ℓ.Prime → ℓ ∣ Int.gcd nx N → ¬ (ℓ : ℤ) ∣ p) :
+    ∃ g ∈ hLat p (createFromPrimitive p x N O prev).lattice, ∃ q : ℤ,
+      HasNorm g ((Int.gcd nx N : ℤ) * q) ∧ Int.gcd q (Int.gcd nx N : ℤ) = 1 := by
+  obtain ⟨hd, hnO, _, _⟩ := isOrderCert_sound p O ho
+  have hint := isIntegralOrder_of_cert p O ho hg
+  have hord := hint.toIsOrder
+  have hco := latContains_sound O x hxO
+  set c := (latContains O x).2 with hc
+  have hxv := val_eq_of_coordsOf p O x c hd hx hco
+  have hcont : c.content = 1 := by
+    unfold isPrimitive makePrimitive at hprim
+    simpa using hprim
+  have hnd : ∀ ℓ : ℕ, ℓ.Prime → ℓ ∣ Int.gcd nx N →
+      ∃ b ∈ hLat p O, ∃ m : ℤ, TracePair (val p x) b m ∧ ¬ ((ℓ : ℤ) ∣ m) := by
+    intro ℓ hℓ hdv
+    obtain ⟨j, hj, hnj⟩ := exists_basis_trace_ndvd p O hg c hcont ℓ hℓ (hcop ℓ hℓ hdv)
+    have hj4 : j < 4 := by simp only [idx4, List.mem_cons, List.not_mem_nil, or_false] at hj; omega
+    refine ⟨_, col_mem_hLat p O j hj4, _, ?_, hnj⟩
+    rw [hxv]
+    exact TracePair.symm (tracePair_eval p O hd hg c j hj)
+  obtain ⟨y, hy, q, hNg, hcq⟩ := exists_generator hint (val p x) nx N (hasNorm_of_nrm hn) hn0 hnd
+  refine ⟨val p x + N • y, ?_, q, hNg, hcq⟩
+  rw [hLat_createFromPrimitive_eq_genIdeal p x N O prev hd hx, ← genIdeal_shift hord (val p x) y hy N]
+  exact mem_genIdeal.2 ⟨1, hord.one_mem, 0, (hLat p O).zero_mem, by simp⟩
+
 /-- **`quat_lideal_create_from_primitive`: norm² = index for primitive generators** (full).  `O` an order certified by
     `isOrderCert` and `gramOk` (HNF ring with 1, closed under conjugation, integral trace form of Gram determinant `p²` —
     all linked orders), `x ∈ O` primitive (`quat_alg_is_primitive`), `N(x) = nx`, `n = gcd(nx, N) ≠ 0` prime to `p`.
@@ -295,35 +326,13 @@ theorem createFromPrimitive_covol_primitive (p : ℤ) (x : Elem) (N : ℤ) (O : 
     covol (createFromPrimitive p x N O prev).lattice =
       ((createFromPrimitive p x N O prev).norm : ℚ) ^ 2 * covol O := by
   obtain ⟨hd, hnO, _, _⟩ := isOrderCert_sound p O ho
-  have hint := isIntegralOrder_of_cert p O ho hg
-  have hord := hint.toIsOrder
+  have hord := isOrder_of_cert p O ho
   have hdetO := det_ne_zero_of_isHNF _ hnO
-  -- coordinates of x
-  have hco := latContains_sound O x hxO
-  set c := (latContains O x).2 with hc
-  have hxv := val_eq_of_coordsOf p O x c hd hx hco
-  have hcont : c.content = 1 := by
-    unfold isPrimitive makePrimitive at hprim
-    simpa using hprim
   have hxmem : val p x ∈ hLat p O := (latContains_iff_val p O x hd hx hnO).1 hxO
-  -- nondegeneracy at every prime dividing n
-  have hnd : ∀ ℓ : ℕ, ℓ.Prime → ℓ ∣ Int.gcd nx N →
-      ∃ b ∈ hLat p O, ∃ m : ℤ, TracePair (val p x) b m ∧ ¬ ((ℓ : ℤ) ∣ m) := by
-    intro ℓ hℓ hdv
-    obtain ⟨j, hj, hnj⟩ := exists_basis_trace_ndvd p O hg c hcont ℓ hℓ (hcop ℓ hℓ hdv)
-    have hj4 : j < 4 := by simp only [idx4, List.mem_cons, List.not_mem_nil, or_false] at hj; omega
-    refine ⟨_, col_mem_hLat p O j hj4, _, ?_, hnj⟩
-    rw [hxv]
-    exact TracePair.symm (tracePair_eval p O hd hg c j hj)
-  obtain ⟨y, hy, q, hNg, hcq⟩ := exists_generator hint (val p x) nx N (hasNorm_of_nrm hn) hn0 hnd
-  -- the ideal
-  have hlat := hLat_createFromPrimitive_eq_genIdeal p x N O prev hd hx
+  obtain ⟨g, hgI, q, hNg, hcq⟩ := createFromPrimitive_exists_generator p x N O prev nx ho hg hx hxO hprim hn hn0 hcop
   have hIn := createFromPrimitive_isLeftIdealOfNorm p x N O prev nx hd hx hord hxmem hn
   have hnorm : (createFromPrimitive p x N O prev).norm = (Int.gcd nx N : ℤ) := createFromPrimitive_norm p x N O prev nx hx hn
   have hId := (createFromPrimitive_lattice p x N O prev hd hx).2
-  have hgI : val p x + N • y ∈ hLat p (createFromPrimitive p x N O prev).lattice := by
-    rw [hlat, ← genIdeal_shift hord (val p x) y hy N]
-    exact mem_genIdeal.2 ⟨1, hord.one_mem, 0, (hLat p O).zero_mem, by simp⟩
   obtain ⟨v, hv⟩ := exists_elem_of_mem_hLat p _ _ hgI
   rw [hnorm] at hIn ⊢
   by_cases hq0 : q = 0
@@ -335,5 +344,23 @@ theorem createFromPrimitive_covol_primitive (p : ℤ) (x : Elem) (N : ℤ) (O : 
       (by exact_mod_cast hn0) hq0 hId ?_ ?_ hcq
     · rw [← hv]; exact hgI
     · rw [← hv]; exact (hasNorm_iff_nrm _ _).1 hNg
+
+/-- **invertibility**: under the same hypotheses, `N(I) ∈ Ī·I` — the hypothesis of the exact transporter / right order
+    theorems holds for every ideal `create_from_primitive` builds from a primitive generator -/
+theorem createFromPrimitive_norm_mem_conj_mul (p : ℤ) (x : Elem) (N : ℤ) (O : Lattice) (prev nx : ℤ)
+    (ho : isOrderCert p O = true) (hg : gramOk p O = true) (hx : x.denom ≠ 0)
+    (hxO : (latContains O x).1 = true) (hprim : isPrimitive O x = true)
+    (hn : nrm (val p x) = nx) (hn0 : Int.gcd nx N ≠ 0)
+    (hcop : ∀ ℓ : ℕ, ℓ.Prime → ℓ ∣ Int.gcd nx N → ¬ (ℓ : ℤ) ∣ p) :
+    (((createFromPrimitive p x N O prev).norm : ℤ) : H p) ∈
+      conjS (hLat p (createFromPrimitive p x N O prev).lattice) * hLat p (createFromPrimitive p x N O prev).lattice := by
+  obtain ⟨hd, hnO, _, _⟩ := isOrderCert_sound p O ho
+  have hord := isOrder_of_cert p O ho
+  have hxmem : val p x ∈ hLat p O := (latContains_iff_val p O x hd hx hnO).1 hxO
+  obtain ⟨g, hgI, q, hNg, hcq⟩ := createFromPrimitive_exists_generator p x N O prev nx ho hg hx hxO hprim hn hn0 hcop
+  have hIn := createFromPrimitive_isLeftIdealOfNorm p x N O prev nx hd hx hord hxmem hn
+  have hnorm : (createFromPrimitive p x N O prev).norm = (Int.gcd nx N : ℤ) := createFromPrimitive_norm p x N O prev nx hx hn
+  rw [hnorm] at hIn ⊢
+  exact norm_mem_conj_mul g hgI hIn.norm_mem hNg hcq
 
 end SqiProofs.IdealPrim
